@@ -98,7 +98,10 @@ QueryStep ==
     /\ Line.a = "Query"
     /\ UNCHANGED svars
     /\ bad' = bad \cup {<<n, l, {}>> : n \in
-              IF ~KnownIds(Range(Line.res)) THEN {"Garbage"} ELSE Q!QueryVerdict(store, Line.fs, Line.res)}
+              IF ~KnownIds(Range(Line.res)) THEN {"Garbage"}
+              ELSE Q!QueryVerdict(store, Line.fs, Line.res)
+                   \* (a marker, not a property: the SQL answer is not what the single-statement semantics produce)
+                   \cup (IF Backend = "sql" /\ ~Q!SqlModel(store, Line.fs, Line.res) THEN {"SqlModelDeviation"} ELSE {})}
 
 GetStep ==
     /\ Line.a = "Get"
